@@ -266,3 +266,34 @@ def string_from_any(ctx, args, st):
     t = st.deref_all(args[0])
     if isinstance(t, StrV): return ret(st, t.retag('String'))
     return None
+
+
+@model(r'^<str as (?:unicode_segmentation::)?UnicodeSegmentation>::graphemes$|^(?:unicode_segmentation::)?UnicodeSegmentation::graphemes$|^<.* as UnicodeSegmentation>::graphemes$')
+def str_graphemes(ctx, args, st):
+    """extended grapheme clusters, modelled as one cluster per code point: exact for text without combining marks, ZWJ sequences,
+    regional indicators, Hangul jamo or CRLF pairs (stated as an assumption by the obligations that use it)"""
+    from .iters import mk_list_iter
+    s = str_of(st, args[0])
+    return ret(st, mk_list_iter([st.ref(StrV((c,), 'str')) for c in s.chars]))
+
+
+@model(r'^(?:std|alloc)::slice::<impl \[.*\]>::(join|concat)::<.*>$|^<\[.*\] as (?:std::slice::)?(?:Join|Concat)<.*>>::(join|concat)$')
+def slice_join_str(ctx, args, st):
+    from .core import vec_of
+    v = vec_of(st, args[0])
+    sep = str_of(st, args[1]) if len(args) > 1 else StrV((), 'str')
+    chars = []
+    for i, x in enumerate(v.items):
+        t = st.deref_all(x)
+        if not isinstance(t, StrV): return None
+        if t.facts is not None or sep.facts is not None: raise Unsupported('join of abstract strings')
+        if i: chars += list(sep.chars)
+        chars += list(t.chars)
+    return ret(st, StrV(chars, 'String'))
+
+
+@model(r'^<String as Add<&str>>::add$')
+def string_add(ctx, args, st):
+    a, b = str_of(st, args[0]), str_of(st, args[1])
+    if a.facts is not None or b.facts is not None: raise Unsupported('concatenation of abstract strings')
+    return ret(st, StrV(a.chars + b.chars, 'String'))
